@@ -153,7 +153,8 @@ TermClauses(L, E, k) ==
       yDc == Mul(y, Sub(c1, c2))
       DcM == Add(Abs(c1), Abs(c2))
       Tm == E.T
-  IN (IF Law(Tm.TSC[k], Neg(Mul(Aq, AyDn)), <<MagProd(<<AqM, AqM, y, DnM>>)>>, W2)
+  IN (IF E.ident THEN {} ELSE (
+     (IF Law(Tm.TSC[k], Neg(Mul(Aq, AyDn)), <<MagProd(<<AqM, AqM, y, DnM>>)>>, W2)
       THEN {} ELSE {<<"TSC", k>>})
      \cup (IF Law(Tm.CC[k], Neg(Mul(Bq, AyDn)), <<MagProd(<<AqM, BqM, y, DnM>>)>>, W2)
            THEN {} ELSE {<<"CC", k>>})
@@ -169,7 +170,7 @@ TermClauses(L, E, k) ==
      \cup (LET lhs == Mul(Mul(Tm.TAchC[k], nu), cdnn)
            IN IF Near(lhs, Mul(Aq, yDc), <<lhs, MagProd(<<AqM, y, DcM>>)>>) THEN {} ELSE {<<"TAchC", k>>})
      \cup (LET lhs == Mul(Mul(Tm.TchC[k], nu), cdnn)
-           IN IF Near(lhs, Mul(Bq, yDc), <<lhs, MagProd(<<BqM, y, DcM>>)>>) THEN {} ELSE {<<"TchC", k>>})
+           IN IF Near(lhs, Mul(Bq, yDc), <<lhs, MagProd(<<BqM, y, DcM>>)>>) THEN {} ELSE {<<"TchC", k>>})))
      \* identities of the returned families
      \cup (IF Near2(Tm.TCC[k], Mul(I(3), Tm.CC[k])) THEN {} ELSE {<<"TCC", k>>})
      \cup (IF Near2(Mul(Tm.SC[k], uK), Neg(Tm.TSC[k])) THEN {} ELSE {<<"SC", k>>})
@@ -195,8 +196,8 @@ JudgeSeidel(L, E) ==
      ELSE IF ~shapeOK THEN {<<"finite", 0>>}
      ELSE UNION {TermClauses(L, E, k) : k \in 1..n}
           \* every Seidel sum is -2 n_K u_K times the sum of its transverse surface terms
-          \cup {<<"seidel_sum", i>> : i \in {j \in 1..5 :
-                  ~Near(E.S[j], Neg(Mul(W, SumSeq(five[j], n))), [q \in 1..n |-> Mul(W, five[j][q])])}}
+          \cup (IF E.ident THEN {} ELSE {<<"seidel_sum", i>> : i \in {j \in 1..5 :
+                  ~Near(E.S[j], Neg(Mul(W, SumSeq(five[j], n))), [q \in 1..n |-> Mul(W, five[j][q])])}})
           \* every accessor agrees with the all-in-one call
           \cup {<<"accessor", i>> : i \in {j \in 1..12 :
                   ~(SeqFinite(G[j], n) /\ \A q \in 1..n : Near2(G[j][q], F[j][q]))}}
